@@ -562,6 +562,131 @@ namespace
                 flag("bad-call");
             });
     }
+    //=== C15: the stateless low-level allocators report their process-wide net once at exit ===//
+    int  g_leak_fd = -1;
+    void leak_to_fd(const allocator_info& info, std::ptrdiff_t amount)
+    {
+        char b[200];
+        int  n = snprintf(b, sizeof b, "LEAK %s %td\n", info.name ? info.name : "?", amount);
+        if (g_leak_fd >= 0 && n > 0)
+        {
+            auto w = ::write(g_leak_fd, b, std::size_t(n));
+            (void)w;
+        }
+    }
+    template <class A>
+    void exit_leak_kind(const args& a, const char* name, const char* expect_name)
+    {
+        std::string kind = std::string("exit-leak/") + name;
+        if (a.kind != "all" && a.kind != kind)
+            return;
+        for (long c = a.from; c < a.to; ++c)
+            run_case(kind, c, [&] {
+                auto r        = case_rng(a.seed, a.group, kind, c);
+                bool balanced = c % 3 == 2;
+                auto seed     = r.next();
+                // what the child will do, computed here as well: net bytes requested and not released
+                std::ptrdiff_t net = 0;
+                {
+                    rng cr(seed);
+                    int n = int(cr.range(1, 30));
+                    for (int i = 0; i < n; ++i)
+                    {
+                        auto size = cr.range(1, 3000);
+                        bool keep = !balanced && cr.chance(40);
+                        if (keep)
+                            net += std::ptrdiff_t(size);
+                    }
+                    if (!balanced && net == 0)
+                        net = 0;
+                }
+                op("child process: %s, %s history (net %td bytes), report expected at exit", name, balanced ? "balanced" : "leaking", net);
+                int fds[2];
+                if (pipe(fds) != 0)
+                    return;
+                fflush(nullptr);
+                pid_t pid = fork();
+                if (pid == 0)
+                {
+                    close(fds[0]);
+                    g_leak_fd = fds[1];
+                    set_leak_handler(leak_to_fd);
+                    signal(SIGABRT, SIG_DFL);
+                    signal(SIGSEGV, SIG_DFL);
+                    using tr = allocator_traits<A>;
+                    A   alloc;
+                    rng cr(seed);
+                    int n = int(cr.range(1, 30));
+                    for (int i = 0; i < n; ++i)
+                    {
+                        auto  size = cr.range(1, 3000);
+                        bool  keep = !balanced && cr.chance(40);
+                        void* p    = tr::allocate_node(alloc, size, 8);
+                        std::memset(p, 1, size);
+                        if (!keep)
+                            tr::deallocate_node(alloc, p, size, 8);
+                    }
+                    std::exit(0);
+                }
+                close(fds[1]);
+                std::string out;
+                char        buf[256];
+                for (;;)
+                {
+                    auto got = ::read(fds[0], buf, sizeof buf);
+                    if (got <= 0)
+                        break;
+                    out.append(buf, std::size_t(got));
+                }
+                close(fds[0]);
+                int st = 0;
+                waitpid(pid, &st, 0);
+                count("exit_children");
+                if (!WIFEXITED(st) || WEXITSTATUS(st) != 0)
+                    viol("C15", "C15/" + kind + "/child-died", "the child process did not exit normally (status 0x%x)", st);
+                // parse
+                std::vector<std::pair<std::string, long>> reps;
+                std::size_t pos = 0;
+                while (pos < out.size())
+                {
+                    auto eol  = out.find('\n', pos);
+                    auto line = out.substr(pos, eol == std::string::npos ? std::string::npos : eol - pos);
+                    pos       = eol == std::string::npos ? out.size() : eol + 1;
+                    if (line.rfind("LEAK ", 0) == 0)
+                    {
+                        auto sp = line.rfind(' ');
+                        reps.push_back({line.substr(5, sp - 5), atol(line.c_str() + sp + 1)});
+                    }
+                }
+#if FOONATHAN_MEMORY_DEBUG_LEAK_CHECK
+                if (net == 0)
+                {
+                    if (!reps.empty())
+                        viol("C15", "C15/" + kind + "/reported-although-balanced", "a balanced history was reported at exit: %s %ld", reps[0].first.c_str(),
+                             reps[0].second);
+                    count("silent_exits_checked");
+                }
+                else
+                {
+                    if (reps.size() != 1)
+                        viol("C15", "C15/" + kind + (reps.empty() ? "/leak-not-reported" : "/reported-more-than-once"),
+                             "%td bytes were never deallocated; the leak handler ran %zu times at exit", net, reps.size());
+                    if (reps[0].first.find(expect_name) == std::string::npos)
+                        viol("C15", "C15/" + kind + "/wrong-allocator-named", "the report names '%s'", reps[0].first.c_str());
+                    // with fences the low-level allocators count the fence bytes too: exact only without them
+                    bool exact = detail::debug_fence_size == 0 || std::string(name) == "virtual_memory_allocator";
+                    if (exact ? reps[0].second != net : reps[0].second < net)
+                        viol("C15", "C15/" + kind + "/leak-amount", "net %td bytes were not deallocated, the report at exit says %ld", net, reps[0].second);
+                    count("exit_reports_checked");
+                    flag("leak");
+                }
+#else
+                if (!reps.empty())
+                    viol("C15", "C15/" + kind + "/reported-although-disabled", "leak handler called at exit although leak checking is disabled");
+#endif
+                flag("bad-call");
+            });
+    }
 } // namespace
 
 int main(int argc, char** argv)
@@ -574,6 +699,13 @@ int main(int argc, char** argv)
         fence_kind<malloc_allocator>(a, "malloc_allocator", 16, false);
         fence_kind<new_allocator>(a, "new_allocator", 16, false);
         fence_kind<virtual_memory_allocator>(a, "virtual_memory_allocator", virtual_memory_page_size, true);
+    }
+    else if (a.group == "exitleak")
+    {
+        exit_leak_kind<heap_allocator>(a, "heap_allocator", "heap_allocator");
+        exit_leak_kind<malloc_allocator>(a, "malloc_allocator", "malloc_allocator");
+        exit_leak_kind<new_allocator>(a, "new_allocator", "new_allocator");
+        exit_leak_kind<virtual_memory_allocator>(a, "virtual_memory_allocator", "virtual_memory_allocator");
     }
     else
     {
